@@ -9,6 +9,9 @@
                                                        `CDSInterval.extract_sequence` (gene/cds.py:100,456-467,515)
     §5  copy of a dict of sets followed by `set.update`, on a reference heap (deep copy = the code as it is;
         `dict.copy()` = the code before b1a89c3)      `_merge_qualifiers` (gene/interval.py:776-786)
+    §6  operations that construct a new object from lazily cached operands (`reset_parent`, `reset_strand`, set operations, …)
+    §7  `export_qualifiers(parent_qualifiers)` with the argument BY REFERENCE + the `.add()` loop; one gene-level
+        dictionary handed to all children (`GeneInterval.to_gff`)
 
   Lean core only (the model driver runs with `lean --run`).
 -/
@@ -299,5 +302,112 @@ def alloc : Heap → List (Nat × List Nat) → Heap × Dict
   | h, (k, vals) :: rest =>
     let res := alloc (h ++ [setUpdate [] vals]) rest
     (res.1, (k, h.length) :: res.2)
+
+/-! ## §6 operations that build NEW objects from lazily cached operands
+
+    `SingleInterval.reset_parent` (location_impl.py:268-270), `reset_strand`, `shift_position`, `extend_absolute`, the set
+    operations, `Sequence.__getitem__`, `liftover_to_parent_or_seq_chunk_parent`, … all end in a constructor call on values
+    computed from the operands' constructor data (`SingleInterval(self.start, self.end, self.strand, parent)`); the
+    constructor initialises every lazily filled cell to `None` (location_impl.py:63, 469-470). -/
+
+/-- unary operation as coded: the result is a freshly constructed object -/
+def LazyObj.derive {γ ι ν} (op : γ → γ) (o : LazyObj γ ι ν) : LazyObj γ ι ν := LazyObj.fresh (op o.core)
+
+/-- binary operation as coded (`a.union(b)`, `a.intersection(b)`, `seq.append(other)`, …) -/
+def LazyObj.derive2 {γ ι ν} (op : γ → γ → γ) (a b : LazyObj γ ι ν) : LazyObj γ ι ν := LazyObj.fresh (op a.core b.core)
+
+/-- NOT the code: an operation that hands the operand's filled cells to its result ("keep the already extracted
+    sequence").  Only used for the witness that the freshness of the cells is what the theorem rests on. -/
+def LazyObj.deriveCarry {γ ι ν} (op : γ → γ) (o : LazyObj γ ι ν) : LazyObj γ ι ν := ⟨op o.core, o.slot⟩
+
+/-- constructor data of a `SingleInterval` on a parent with sequence: coordinates, strand, the parent's bases
+    (`none` = no parent / parent without sequence) -/
+structure SICore where
+  start : Nat
+  stop : Nat
+  minus : Bool
+  bases : Option (List Char)
+  deriving DecidableEq, Repr
+
+inductive SIAttr where
+  | sequence        -- `_sequence`, filled by `extract_sequence()` (location_impl.py:154-172)
+  deriving DecidableEq, Repr
+
+def complement : Char → Char
+  | 'A' => 'T' | 'C' => 'G' | 'G' => 'C' | 'T' => 'A' | c => c
+
+/-- `extract_sequence()`: the slice of the parent's bases, reverse-complemented on the minus strand;
+    `none` = raises (no parent sequence) -/
+def siAttr (c : SICore) : SIAttr → Option (List Char)
+  | .sequence =>
+    match c.bases with
+    | none => none
+    | some b =>
+      let sl := (b.drop c.start).take (c.stop - c.start)
+      some (if c.minus then (sl.reverse.map complement) else sl)
+
+/-- `reset_parent(new_parent)`: same coordinates and strand, the new parent's bases -/
+def SICore.resetParent (newBases : Option (List Char)) (c : SICore) : SICore := { c with bases := newBases }
+
+/-! ## §7 `export_qualifiers(parent_qualifiers)`: the ARGUMENT is a dict of references to the caller's sets
+
+    `_merge_qualifiers` (gene/interval.py:776-786) followed by the `.add()` loop of `TranscriptInterval.export_qualifiers`
+    (transcript.py:667-686) / `CDSInterval.export_qualifiers` (cds.py:309-323) / `FeatureInterval.export_qualifiers`:
+
+        merged = {key: set(vals) for key, vals in self.qualifiers.items()}
+        for key, vals in other_qualifiers.items():
+            if key not in merged: merged[key] = set()
+            merged[key].update(vals)
+        for key, val in [...identifiers...]:
+            if not val: continue
+            if key not in qualifiers: qualifiers[key] = set()
+            qualifiers[key].add(val)                                                                    -/
+
+/-- the merge loop with `other` by reference: the caller's set is READ (`update(vals)`) when its key is reached -/
+def mergeIntoRef : Heap → Dict → Dict → Heap × Dict
+  | h, merged, [] => (h, merged)
+  | h, merged, (key, ro) :: rest =>
+    match dlookup key merged with
+    | some r => mergeIntoRef (h.modify r (fun c => setUpdate c (cellAt h ro))) merged rest
+    | none => mergeIntoRef (h ++ [setUpdate [] (cellAt h ro)]) (merged ++ [(key, h.length)]) rest
+
+/-- NOT the code: `merged[key] = vals` for keys the interval does not have (the argument's set is adopted).
+    Only used for the witness that copying is what the theorem rests on. -/
+def mergeIntoAdopt : Heap → Dict → Dict → Heap × Dict
+  | h, merged, [] => (h, merged)
+  | h, merged, (key, ro) :: rest =>
+    match dlookup key merged with
+    | some r => mergeIntoAdopt (h.modify r (fun c => setUpdate c (cellAt h ro))) merged rest
+    | none => mergeIntoAdopt h (merged ++ [(key, ro)]) rest
+
+/-- the `.add()` loop: `(key, val)` for every identifier the exporter adds (those with a truthy value) -/
+def addIds : Heap → Dict → List (Nat × Nat) → Heap × Dict
+  | h, q, [] => (h, q)
+  | h, q, (key, val) :: rest =>
+    match dlookup key q with
+    | some r => addIds (h.modify r (fun c => setUpdate c [val])) q rest
+    | none => addIds (h ++ [setUpdate [] [val]]) (q ++ [(key, h.length)]) rest
+
+/-- `export_qualifiers(parent_qualifiers)` as coded -/
+def exportQualifiers (h : Heap) (own other : Dict) (ids : List (Nat × Nat)) : Heap × Dict :=
+  let c := deepCopy h own
+  let m := mergeIntoRef c.1 c.2 other
+  addIds m.1 m.2 ids
+
+/-- … with the adopting merge (NOT the code) -/
+def exportQualifiersAdopt (h : Heap) (own other : Dict) (ids : List (Nat × Nat)) : Heap × Dict :=
+  let c := deepCopy h own
+  let m := mergeIntoAdopt c.1 c.2 other
+  addIds m.1 m.2 ids
+
+/-- `GeneInterval.to_gff` (gene.py:321-348): ONE gene-level dictionary is handed to every transcript's export
+    (and by each transcript to its CDS): children = (own qualifiers, identifiers added) in export order -/
+def exportChildren : Heap → Dict → List (Dict × List (Nat × Nat)) → Heap
+  | h, _, [] => h
+  | h, pq, (own, ids) :: rest => exportChildren (exportQualifiers h own pq ids).1 pq rest
+
+def exportChildrenAdopt : Heap → Dict → List (Dict × List (Nat × Nat)) → Heap
+  | h, _, [] => h
+  | h, pq, (own, ids) :: rest => exportChildrenAdopt (exportQualifiersAdopt h own pq ids).1 pq rest
 
 end BioCantor.Model.Cache
